@@ -6,6 +6,7 @@ import DudModel.Hasher
 import DudModel.Same
 import DudModel.Lock
 import DudModel.Sys
+import DudModel.SysCmd
 /-!
 # `dudmodel` — line-protocol driver of the executable model
 
@@ -290,40 +291,28 @@ def callStr (art : Nat) : Sys.Call ByteArray → String
   | .unlink p => s!"unlink {pStr art p}"
   | .symlink t p => s!"symlink {pStr art t} {pStr art p}"
 
-/-- traced `dud commit`: lock, per stage (in traversal order) plain inputs then outputs, stage files, unlock -/
+/-- traced `dud commit`: the call sequence is the LIBRARY function `Sys.cmdCommitGoSegs` (DudModel/SysCmd.lean, the object of
+`Props/C03cmdGo.lean`): lock, then per target the artifacts of the stages its traversal commits (plain inputs, then outputs) followed by
+the stage files of those stages, unlock.  What remains here is presentation: temp files numbered per artifact, `mkdir` printed only for
+directories that do not exist yet (MkdirAll), calls rendered as text. -/
 def traceCommit (strat : Strat) (canRename : Bool) (targets : List Bytes) (w : World ByteArray) : Except Err (Array String) :=
-  match cmdCommit theCfg strat targets w with
+  let c : Sys.CmdCfg ByteArray :=
+    { cfg := theCfg, isEmp := fun b => b.size == 0, canRename := canRename, encStage := fun _ => ba [0x73] }
+  match Sys.cmdCommitGoSegs c strat targets w with
   | .error e => .error e
-  | .ok wfin =>
-    let order := wfin.done.reverse
-    let t : Sys.TCfg ByteArray := { ctx := theCtx, isEmp := fun b => b.size == 0, strat := strat, canRename := canRename }
-    let step := fun (acc : World ByteArray × Array String × Nat × List (Sys.P)) (sp : Bytes) =>
-      let (w, out, k, dirs) := acc
-      match alookup w.idx sp with
-      | none => acc
-      | some stg =>
-        let wa := theCfg.walkAccumulates
-        let plain := (stg.inputs.filter (fun a => (findOwner wa w.idx a.path).isNone)).map (fun a => { a with skip := true })
-        let arts := sortArts plain ++ sortArts stg.outputs
-        let (w', out', k', dirs') := arts.foldl (fun (acc2 : World ByteArray × Array String × Nat × List Sys.P) a =>
-          let (w, out, k, dirs) := acc2
-          let comps := Path.comps a.path
-          match Sys.commitArtT t a comps (getPath w.ws comps) w.store with
-          | .error _ => acc2
-          | .ok ((n, _, s), calls) =>
-            -- MkdirAll issues mkdir only for directories that do not exist yet
-            let (lines, dirs) := calls.foldl (fun (p : Array String × List Sys.P) c =>
-              match c with
-              | .mkdir d => if p.2.contains d then p else (p.1.push (callStr k c), d :: p.2)
-              | _ => let l := callStr k c; if l.isEmpty then p else (p.1.push l, p.2)) (out, dirs)
-            ({ w with ws := (setPath w.ws comps n).getD w.ws, store := s }, lines, k + 1, dirs)) (w, out, k, dirs)
-        (w', out', k', dirs')
+  | .ok (_, segs) =>
     let existing : List Sys.P := .cacheRoot :: (storeKeys w.store).map (fun d => Sys.P.shard (Sys.shardOf d))
-    let (_, out, _, _) := order.foldl step (fresh w, #["create_excl L"], 0, existing)
-    let atomicS := Dud.Facts.stageWrite == "tempRename"
-    let out := order.foldl (fun out sp =>
-      let calls : List (Sys.Call ByteArray) := Sys.metaWriteCalls atomicS (.stageFile sp) (.stageTmp sp) (fun _ => false) ByteArray.empty
-      calls.foldl (fun o c => let l := callStr 0 c; if l.isEmpty then o else o.push l) out) out
+    let (out, _, _) := segs.foldl (fun (acc : Array String × Nat × List Sys.P) (seg : Bool × List (Sys.Call ByteArray)) =>
+      let (out, k, dirs) := acc
+      if seg.1 then
+        let (lines, dirs) := seg.2.foldl (fun (p : Array String × List Sys.P) c =>
+          match c with
+          | .mkdir d => if p.2.contains d then p else (p.1.push (callStr k c), d :: p.2)
+          | _ => let l := callStr k c; if l.isEmpty then p else (p.1.push l, p.2)) (out, dirs)
+        (lines, k + 1, dirs)
+      else
+        (seg.2.foldl (fun o c => let l := callStr 0 c; if l.isEmpty then o else o.push l) out, k, dirs))
+      (#["create_excl L"], 0, existing)
     .ok (out.push "unlink L")
 
 structure Sim where
